@@ -173,7 +173,7 @@ Theorem release_faults_lemma :
 Proof.
   intros ocfg tcfg fl evs t o d force fuel s0 Hv Hpc Hal Hfd Hown Hc Hfu s'.
   assert (HI : Inv s0) by (apply Inv_run; [apply Inv_init|exact Hv]). destruct HI as [HT HF].
-  destruct (do_release_outcome s0 t o Hal force fuel Hpc Hfu) as (s1 & E & F & P1 & P2 & P3 & Post).
+  destruct (do_release_outcome s0 t o Hal force fuel Hpc Hfu) as (s1 & E & F & P1 & P0 & P2 & P3 & Post).
   unfold s'. rewrite E. cbn [fst snd]. unfold rel_post in Post. rewrite Hfd in Post.
   assert (Hfin : Nat.eqb (pred (o_cnt (objs s0 o))) 0 || force = true).
   { destruct Hc as [Hc| ->]; [|apply orb_true_r]. destruct (o_cnt (objs s0 o)) as [|[|n]]; cbn; auto. lia. }
@@ -195,4 +195,553 @@ Proof.
   { intros d' Hn. rewrite Pf. destruct (Nat.eqb_spec d' d); congruence. }
   intros Heq. destruct (rel_loop_full k ob1 t) as (A1 & A2 & _); cbn; auto.
   unfold k. destruct Hc as [Hc| ->]; [destruct force|]; lia.
+Qed.
+
+(* ================================================================================================ *)
+(* Part 2: sequences of calls refine the abstract Lock/RLock spec (no OSError scripted)              *)
+(* ================================================================================================ *)
+Require Import Aiuti.FLockTerm.
+
+Definition norm' (dflt : tmo) (blk : bool) (tm : tmo) : bool * tmo := normalise (obj0 0 false dflt) blk tm.
+
+Lemma normalise_norm' ob blk tm : normalise ob blk tm = norm' (o_dflt ob) blk tm.
+Proof. unfold norm', normalise. destruct tm; reflexivity. Qed.
+
+Lemma waits_forever_norm dflt blk tm :
+  waits_forever dflt blk tm = fst (norm' dflt blk tm) && match snd (norm' dflt blk tm) with TVal _ => false | _ => true end.
+Proof. unfold waits_forever, norm', normalise. destruct tm, blk, dflt; reflexivity. Qed.
+
+Lemma restore_obj ob t :
+  (o_own ob = None -> o_dep ob = 0) -> (forall u, o_own ob = Some u -> 1 <= o_dep ob) ->
+  tl_try ob t <> None -> tl_release (set_cnt (acq_obj ob t) (o_cnt ob)) = ob.
+Proof.
+  intros Hf Hw Htry. unfold tl_try in Htry. destruct ob as [pr re df fd cn ow de]. cbn in *.
+  destruct ow as [u|].
+  - destruct re; cbn in Htry; [|congruence]. destruct (Nat.eqb_spec u t); [subst u|congruence].
+    specialize (Hw t eq_refl). unfold tl_release, acq_obj, set_cnt. cbn. destruct de; [lia|]. reflexivity.
+  - rewrite (Hf eq_refl). unfold tl_release, acq_obj, set_cnt. cbn. rewrite andb_false_r. reflexivity.
+Qed.
+
+Section Refine.
+Variables (reent : oid -> bool) (dflt : oid -> tmo).
+
+Definition pristine (ob : obj) : Prop := o_fd ob = None /\ o_own ob = None /\ o_cnt ob = 0 /\ o_dep ob = 0.
+
+(* representation invariant + abstraction, for the states between two calls *)
+Record Rq (s : state) (st : sstate) : Prop := mkRq {
+  q_thr : forall t, t_pc (thr s t) = PIdle /\ t_proc (thr s t) = 0;
+  q_dead : forall p, dead s p = false;
+  q_faults : faults s = [];
+  q_cfg : forall o, o_proc (objs s o) = 0 /\ o_reent (objs s o) = reent o /\ o_dflt (objs s o) = dflt o;
+  q_kern : (forall h, holder s = Some h -> h < nextfd s) /\ (forall d q, fdown s d = Some q -> d < nextfd s);
+  q_abs : match st with
+          | None => holder s = None /\ forall o, pristine (objs s o)
+          | Some (o, t, d) =>
+              1 <= d /\ (reent o = false -> d = 1) /\
+              (exists fd, o_fd (objs s o) = Some fd /\ holder s = Some fd) /\
+              o_own (objs s o) = Some t /\ o_cnt (objs s o) = d /\ o_dep (objs s o) = d /\
+              forall o', o' <> o -> pristine (objs s o')
+          end
+}.
+
+Definition depth (st : sstate) : nat := match st with Some (_, _, d) => d | None => 0 end.
+
+Lemma tl_try_pristine ob t : pristine ob -> tl_try ob t <> None.
+Proof. intros (_ & A & _). unfold tl_try. rewrite A. discriminate. Qed.
+
+Lemma tl_try_held ob t u : o_own ob = Some u ->
+  (tl_try ob t <> None <-> (o_reent ob = true /\ u = t)).
+Proof.
+  intros A. unfold tl_try. rewrite A. destruct (o_reent ob); cbn; [|split; [congruence|intros [? _]; discriminate]].
+  destruct (Nat.eqb_spec u t); split; auto; try congruence; try discriminate. intros [_ ?]. congruence.
+Qed.
+
+Lemma spec_no_cases d m blk tm :
+  spec_no d m blk tm = if fst (norm' d blk tm) && match snd (norm' d blk tm) with TVal _ => false | _ => true end
+                       then RWouldBlock else fail_result m.
+Proof. unfold spec_no. now rewrite waits_forever_norm. Qed.
+
+(* Rq after an acquire/release that changed only object o and thread t *)
+Lemma Rq_frame s s' st st' t o pend h :
+  Rq s st -> Frame s t o s' pend h ->
+  t_pc (thr s' t) = PIdle -> t_proc (thr s' t) = 0 ->
+  o_proc (objs s' o) = 0 /\ o_reent (objs s' o) = reent o /\ o_dflt (objs s' o) = dflt o ->
+  (forall hh, h = Some hh -> hh < nextfd s') ->
+  match st' with
+  | None => h = None /\ forall o', pristine (objs s' o')
+  | Some (o1, t1, d1) =>
+      1 <= d1 /\ (reent o1 = false -> d1 = 1) /\
+      (exists fd, o_fd (objs s' o1) = Some fd /\ h = Some fd) /\
+      o_own (objs s' o1) = Some t1 /\ o_cnt (objs s' o1) = d1 /\ o_dep (objs s' o1) = d1 /\
+      forall o', o' <> o1 -> pristine (objs s' o')
+  end ->
+  Rq s' st'.
+Proof.
+  intros [Qt Qd Qf Qc [Qk1 Qk2] Qa] F Hpc Hpr Hcfg Hh Habs.
+  constructor.
+  - intros t'. destruct (Nat.eq_dec t' t) as [->|Hn]; [auto|]. rewrite (f_thr _ _ _ _ _ _ F) by auto. apply Qt.
+  - intros p. rewrite (f_dead _ _ _ _ _ _ F). apply Qd.
+  - rewrite (f_faults _ _ _ _ _ _ F). exact Qf.
+  - intros o'. destruct (Nat.eq_dec o' o) as [->|Hn]; [auto|]. rewrite (f_obj _ _ _ _ _ _ F) by auto. apply Qc.
+  - split.
+    + intros hh E. apply Hh. rewrite <- E. symmetry. apply (f_holder _ _ _ _ _ _ F).
+    + intros d q E. destruct (Nat.lt_ge_cases d (nextfd s)) as [L|G].
+      * pose proof (f_next _ _ _ _ _ _ F). lia.
+      * destruct pend as [dp|].
+        -- destruct (Nat.eq_dec d dp) as [->|Hn]; [apply (f_pend _ _ _ _ _ _ F dp eq_refl)|].
+           rewrite (f_fd_new _ _ _ _ _ _ F) in E by (auto; congruence). discriminate.
+        -- rewrite (f_fd_new _ _ _ _ _ _ F) in E by (auto; discriminate). discriminate.
+  - rewrite (f_holder _ _ _ _ _ _ F). exact Habs.
+Qed.
+
+Lemma fail_result_not_true m : fail_result m <> RTrue /\ fail_result m <> RWouldBlock.
+Proof. destruct m; split; discriminate. Qed.
+
+Theorem acq_refines s st t o m blk tm poll skip fuel :
+  Rq s st ->
+  let tm' := snd (norm' (dflt o) blk tm) in
+  (forall T, tm' = TVal T -> (1 <= poll)%N) -> acq_fuel tm' poll <= fuel ->
+  let res := do_call fuel s t (CAcq o m blk tm poll skip) in
+  let sp := spec_acquire st t o (reent o) in
+  snd res = (if snd sp then RTrue else spec_no (dflt o) m blk tm) /\
+  (snd res <> RWouldBlock -> Rq (fst res) (fst sp)).
+Proof.
+  intros Q tm' Hp Hfu res sp. pose proof Q as [Qt Qd Qf Qc [Qk1 Qk2] Qa].
+  destruct (Qt t) as [Hpc Hpr]. destruct (Qc o) as (Co1 & Co2 & Co3).
+  assert (Hal : dead s (t_proc (thr s t)) = false) by apply Qd.
+  assert (Hpro : o_proc (objs s o) = t_proc (thr s t)) by congruence.
+  assert (Enorm : normalise (objs s o) blk tm = norm' (dflt o) blk tm) by (rewrite normalise_norm', Co3; reflexivity).
+  pose proof (do_acquire_outcome s t o m blk tm poll skip fuel Hpc Hal Hpro Qk1 Qk2) as Out.
+  pose proof (do_acquire_terminates s t o m blk tm poll skip fuel Hpc Hal Hpro Qk1 Qk2 Qf) as Term.
+  cbv zeta in Out, Term. rewrite Enorm in Out, Term. fold tm' in Out, Term. specialize (Term Hp Hfu).
+  fold res in Out, Term. set (b' := fst (norm' (dflt o) blk tm)) in *.
+  rewrite spec_no_cases. fold b' tm'.
+  (* what the abstract state says about o, t and the kernel *)
+  assert (Hst : match st with
+                | None => pristine (objs s o) /\ holder s = None /\ sp = (Some (o, t, 1), true)
+                | Some (o1, t1, d1) =>
+                    holder s <> None /\
+                    ((o = o1 /\ o_fd (objs s o) <> None /\ o_own (objs s o) = Some t1 /\ o_cnt (objs s o) = d1 /\ o_dep (objs s o) = d1 /\
+                      sp = (if Nat.eqb t t1 && reent o then (Some (o, t, S d1), true) else (st, false)))
+                     \/ (o <> o1 /\ pristine (objs s o) /\ sp = (st, false)))
+                end).
+  { unfold sp, spec_acquire. destruct st as [[[o1 t1] d1]|].
+    - destruct Qa as (D1 & D2 & (fd & F1 & F2) & D3 & D4 & D5 & D6). split; [congruence|].
+      destruct (Nat.eqb_spec o o1) as [->|Hn]; [left|right].
+      + repeat split; auto. congruence.
+      + repeat split; auto; apply D6; auto.
+    - destruct Qa as [A B]. auto. }
+  destruct Out as [E|[[E B]|Fin]]; [congruence| |].
+  - (* the call would block *)
+    split; [|congruence]. rewrite E.
+    destruct B as [a Ht Hb Htm Htry|a d Ht Hb Htm Hfd Htry Hh].
+    + assert (Esp : snd sp = false).
+      { destruct st as [[[o1 t1] d1]|]; [|exfalso; destruct Hst as (P & _); apply (tl_try_pristine _ t P); auto].
+        destruct Hst as (_ & [(-> & _ & Ow & _ & _ & ->)|(_ & P & ->)]); [|exfalso; apply (tl_try_pristine _ t P); auto].
+        destruct (Nat.eqb_spec t t1) as [->|Hn]; cbn; auto. destruct (reent o1) eqn:Er; auto.
+        exfalso. apply (proj2 (tl_try_held _ t1 t1 Ow)); auto; try (split; auto; congruence). }
+      rewrite Esp, Hb. unfold timed_T in Htm. destruct tm'; try discriminate; reflexivity.
+    + assert (Esp : snd sp = false).
+      { destruct st as [[[o1 t1] d1]|]; [|destruct Hst as (_ & A & _); congruence].
+        destruct Hst as (_ & [(-> & A & _)|(_ & _ & ->)]); [congruence|reflexivity]. }
+      rewrite Esp, Hb. unfold timed_T in Htm. destruct tm'; try discriminate; reflexivity.
+  - destruct Fin as [E Ht F Ho Hfd Htry Htm|d E Ht F Ho Hfd Htry Hh Htm|E Ht F Ho Htry Hb Htm|b E Ht F Ho Hfd Htry R1 R2 Htm].
+    + (* reentrant success *)
+      destruct st as [[[o1 t1] d1]|]; [|destruct Hst as ((A & _) & _); congruence].
+      destruct Hst as (Hh & [(-> & _ & Ow & Cn & Dp & Esp)|(_ & (A & _) & _)]); [|congruence].
+      destruct (proj1 (tl_try_held _ t t1 Ow) Htry) as [Re ->]. rewrite Co2 in Re.
+      rewrite Esp, Nat.eqb_refl, Re. cbn [andb fst snd]. split; [exact E|]. intros _.
+      destruct Qa as (D1 & D2 & (fd & F1 & F2) & D3 & D4 & D5 & D6).
+      refine (Rq_frame s (fst res) _ _ _ _ _ _ Q F _ _ _ _ _).
+      * now rewrite Ht.
+      * rewrite Ht. cbn. congruence.
+      * rewrite Ho. cbn. auto.
+      * intros hh Eh. pose proof (f_next _ _ _ _ _ _ F). apply Qk1 in Eh. lia.
+      * rewrite Ho. cbn. rewrite Ow, F1, Cn, Dp. split; [lia|]. split; [intros Z; congruence|].
+        split; [exists fd; auto|]. split; [auto|]. split; [auto|]. split; [auto|].
+        intros o' Hn. rewrite (f_obj _ _ _ _ _ _ F) by auto. apply D6; auto.
+    + (* fresh success *)
+      assert (Hnone : holder s = None).
+      { destruct Hh as [|Hh]; auto. apply Qk1 in Hh. destruct (f_pend _ _ _ _ _ _ F d eq_refl). lia. }
+      destruct st as [[[o1 t1] d1]|]; [destruct Hst as (A & _); congruence|].
+      destruct Hst as ((_ & Ow & Cn & Dp) & _ & Esp). rewrite Esp. cbn [fst snd]. split; [exact E|]. intros _.
+      destruct Qa as [_ Pr].
+      refine (Rq_frame s (fst res) _ _ _ _ _ _ Q F _ _ _ _ _).
+      * now rewrite Ht.
+      * rewrite Ht. cbn. congruence.
+      * rewrite Ho. cbn. auto.
+      * intros hh [= <-]. apply (f_pend _ _ _ _ _ _ F d eq_refl).
+      * rewrite Ho. cbn. rewrite Ow, Cn. split; [lia|]. split; [auto|].
+        split; [exists d; auto|]. split; [auto|]. split; [auto|]. split; [auto|].
+        intros o' Hn. rewrite (f_obj _ _ _ _ _ _ F) by auto. apply Pr.
+    + (* thread lock busy *)
+      assert (Esp : sp = (st, false)).
+      { destruct st as [[[o1 t1] d1]|]; [|exfalso; destruct Hst as (P & _); apply (tl_try_pristine _ t P); auto].
+        destruct Hst as (_ & [(-> & _ & Ow & _ & _ & ->)|(_ & P & ->)]); [|exfalso; apply (tl_try_pristine _ t P); auto].
+        destruct (Nat.eqb_spec t t1) as [->|Hn]; cbn; auto. destruct (reent o1) eqn:Er; auto.
+        exfalso. apply (proj2 (tl_try_held _ t1 t1 Ow)); auto; try (split; auto; congruence). }
+      rewrite Esp. cbn [fst snd]. split.
+      * rewrite E. destruct Hb as [->|[T ->]]; [reflexivity|]. now rewrite andb_false_r.
+      * intros _. refine (Rq_frame s (fst res) _ _ _ _ _ _ Q F _ _ _ _ _).
+        -- now rewrite Ht.
+        -- rewrite Ht. cbn. congruence.
+        -- rewrite Ho. auto.
+        -- intros hh Eh. pose proof (f_next _ _ _ _ _ _ F). apply Qk1 in Eh. lia.
+        -- destruct st as [[[o1 t1] d1]|].
+           ++ destruct Qa as (D1 & D2 & (fd & F1 & F2) & D3 & D4 & D5 & D6).
+              assert (Hob : forall o', objs (fst res) o' = objs s o').
+              { intros o'. destruct (Nat.eq_dec o' o) as [->|Hn]; auto. apply (f_obj _ _ _ _ _ _ F); auto. }
+              rewrite !Hob. split; [auto|]. split; [auto|]. split; [exists fd; auto|]. split; [auto|]. split; [auto|]. split; [auto|].
+              intros o' Hn. rewrite Hob. auto.
+           ++ destruct Qa as [A B]. split; auto. intros o'.
+              destruct (Nat.eq_dec o' o) as [->|Hn]; [rewrite Ho|rewrite (f_obj _ _ _ _ _ _ F) by auto]; apply B.
+    + (* the OS lock is held through another object *)
+      assert (Eb : b = false) by (destruct b; auto; exfalso; apply R1; auto).
+      subst b. destruct (R2 eq_refl) as [Hb [Hh|Hh]]; [|congruence].
+      assert (Esp : sp = (st, false) /\ pristine (objs s o)).
+      { destruct st as [[[o1 t1] d1]|]; [|destruct Hst as (_ & A & _); congruence].
+        destruct Hst as (_ & [(-> & A & _)|(_ & P & ->)]); [congruence|auto]. }
+      destruct Esp as [Esp Pr]. rewrite Esp. cbn [fst snd]. split.
+      * rewrite E. destruct Hb as [->|[T ->]]; [reflexivity|]. now rewrite andb_false_r.
+      * intros _.
+        assert (Ho' : objs (fst res) o = objs s o).
+        { rewrite Ho. apply restore_obj; auto.
+          - destruct Pr as (_ & _ & _ & A). auto.
+          - destruct Pr as (_ & A & _). intros u Z. congruence. }
+        assert (Hob : forall o', objs (fst res) o' = objs s o').
+        { intros o'. destruct (Nat.eq_dec o' o) as [->|Hn]; auto. apply (f_obj _ _ _ _ _ _ F); auto. }
+        refine (Rq_frame s (fst res) _ _ _ _ _ _ Q F _ _ _ _ _).
+        -- now rewrite Ht.
+        -- rewrite Ht. cbn. congruence.
+        -- rewrite Ho'. auto.
+        -- intros hh Eh. pose proof (f_next _ _ _ _ _ _ F). apply Qk1 in Eh. lia.
+        -- destruct st as [[[o1 t1] d1]|].
+           ++ destruct Qa as (D1 & D2 & (fd & F1 & F2) & D3 & D4 & D5 & D6).
+              rewrite !Hob. split; [auto|]. split; [auto|]. split; [exists fd; auto|]. split; [auto|]. split; [auto|]. split; [auto|].
+              intros o' Hn. rewrite Hob. auto.
+           ++ destruct Qa as [A B]. split; auto. intros o'. rewrite Hob. apply B.
+Qed.
+
+Theorem rel_refines s st t o force fuel :
+  Rq s st -> spec_may_release st t o = true -> depth st + 4 <= fuel ->
+  let res := do_call fuel s t (CRel o force) in
+  snd res = RNone /\ Rq (fst res) (spec_release st o force).
+Proof.
+  intros Q Hc Hfu res. pose proof Q as [Qt Qd Qf Qc [Qk1 Qk2] Qa].
+  destruct (Qt t) as [Hpc Hpr]. destruct (Qc o) as (Co1 & Co2 & Co3).
+  assert (Hal : dead s (t_proc (thr s t)) = false) by apply Qd.
+  assert (Hcnt : o_cnt (objs s o) <= depth st).
+  { destruct st as [[[o1 t1] d1]|]; cbn.
+    - destruct Qa as (D1 & D2 & _ & D3 & D4 & D5 & D6). destruct (Nat.eq_dec o o1) as [->|Hn]; [lia|].
+      destruct (D6 o Hn) as (_ & _ & -> & _). lia.
+    - destruct Qa as [_ B]. destruct (B o) as (_ & _ & -> & _). lia. }
+  destruct (do_release_outcome s t o Hal force fuel Hpc) as (s1 & E & F & P1 & P0 & P2 & P3 & Post); [lia|].
+  unfold res. rewrite E. cbn [fst snd]. split; [reflexivity|].
+  assert (Hgen : forall st',
+     (forall hh, holder s1 = Some hh -> hh < nextfd s1) ->
+     (forall d q, fdown s1 d = Some q -> d < nextfd s1) ->
+     o_proc (objs s1 o) = 0 /\ o_reent (objs s1 o) = reent o /\ o_dflt (objs s1 o) = dflt o ->
+     match st' with
+     | None => holder s1 = None /\ forall o', pristine (objs s1 o')
+     | Some (o1, t1, d1) =>
+         1 <= d1 /\ (reent o1 = false -> d1 = 1) /\
+         (exists fd, o_fd (objs s1 o1) = Some fd /\ holder s1 = Some fd) /\
+         o_own (objs s1 o1) = Some t1 /\ o_cnt (objs s1 o1) = d1 /\ o_dep (objs s1 o1) = d1 /\
+         forall o', o' <> o1 -> pristine (objs s1 o')
+     end -> Rq s1 st').
+  { intros st' K1 K2 Hcfg Habs. constructor; auto.
+    - intros t'. destruct (Nat.eq_dec t' t) as [->|Hn]; [split; [auto|congruence]|].
+      rewrite (r_thr _ _ _ _ F) by auto. apply Qt.
+    - intros p. rewrite (r_dead _ _ _ _ F). apply Qd.
+    - rewrite (r_faults _ _ _ _ F). exact Qf.
+    - intros o'. destruct (Nat.eq_dec o' o) as [->|Hn]; [auto|]. rewrite (r_obj _ _ _ _ F) by auto. apply Qc. }
+  assert (Hob : objs s1 o = objs s o -> forall o', objs s1 o' = objs s o').
+  { intros Eo o'. destruct (Nat.eq_dec o' o) as [->|Hn]; auto. apply (r_obj _ _ _ _ F); auto. }
+  assert (Hnx : nextfd s1 = nextfd s) by apply (r_nextfd _ _ _ _ F).
+  unfold rel_post in Post.
+  destruct (o_fd (objs s o)) as [fd|] eqn:Hfd.
+  2:{ (* release of an unheld lock: nothing changes *)
+      destruct Post as (Po & Ph & Pf). specialize (Hob Po).
+      assert (Est : spec_release st o force = st).
+      { destruct st as [[[o1 t1] d1]|]; cbn; auto. destruct (Nat.eqb_spec o o1) as [->|]; auto.
+        destruct Qa as (_ & _ & (fd & F1 & _) & _). congruence. }
+      rewrite Est. apply Hgen.
+      - intros hh Z. rewrite Hnx. apply Qk1. congruence.
+      - intros d q Z. rewrite Hnx. apply (Qk2 d q). congruence.
+      - rewrite Po. auto.
+      - rewrite Ph. destruct st as [[[o1 t1] d1]|]; rewrite ?Hob.
+        + destruct Qa as (D1 & D2 & D3 & D4 & D5 & D6 & D7). split; [auto|]. split; [auto|]. split; [auto|]. split; [auto|]. split; [auto|]. split; [auto|].
+          intros o' Hn. rewrite Hob. apply D7; auto.
+        + destruct Qa as [A B]. split; auto. intros o'. rewrite Hob. apply B. }
+  (* o is the held object *)
+  destruct st as [[[o1 t1] d1]|]; [|destruct Qa as [_ B]; destruct (B o) as (A & _); congruence].
+  destruct Qa as (D1 & D2 & (fd' & F1 & F2) & D3 & D4 & D5 & D6).
+  assert (o = o1) by (destruct (Nat.eq_dec o o1); auto; destruct (D6 o) as (A & _); auto; congruence). subst o1.
+  assert (t1 = t).
+  { unfold spec_may_release, held in Hc. rewrite Nat.eqb_refl in Hc. apply Nat.eqb_eq in Hc. auto. }
+  subst t1. assert (fd' = fd) by congruence. subst fd'.
+  cbn [spec_release]. rewrite Nat.eqb_refl. rewrite D4 in Post.
+  assert (Efin : Nat.eqb (pred d1) 0 || force = force || (d1 <=? 1)).
+  { destruct force; cbn; [now rewrite orb_true_r|]. rewrite orb_false_r. destruct d1 as [|[|n]]; reflexivity. }
+  rewrite Efin in Post. destruct (force || (d1 <=? 1)) eqn:Ef.
+  - (* the lock is given up *)
+    destruct Post as (Po & Ph & Pf).
+    set (k := Nat.max 1 (if force then d1 else 1)) in *.
+    set (ob1 := mkobj (o_proc (objs s o)) (o_reent (objs s o)) (o_dflt (objs s o)) None 0 (o_own (objs s o)) (o_dep (objs s o))) in *.
+    destruct (rel_loop_full k ob1 t) as (A1 & A2 & A3 & A4 & A5 & A6 & A7); cbn; auto.
+    { rewrite D5. unfold k. destruct force; cbn in Ef; try lia; try (apply Nat.leb_le in Ef; lia). }
+    { rewrite Co2. intros Z. rewrite D5. auto. }
+    apply Hgen.
+    + intros hh Z. rewrite Ph, F2 in Z. unfold unl_holder in Z. rewrite Nat.eqb_refl in Z. discriminate.
+    + intros d q Z. rewrite Pf in Z. destruct (Nat.eqb d fd); [discriminate|]. rewrite Hnx. apply (Qk2 d q Z).
+    + rewrite Po, A5, A6, A7. cbn. auto.
+    + split; [rewrite Ph, F2; unfold unl_holder; now rewrite Nat.eqb_refl|].
+      intros o'. destruct (Nat.eq_dec o' o) as [->|Hn].
+      * rewrite Po. repeat split; auto. 
+      * rewrite (r_obj _ _ _ _ F) by auto. apply D6; auto.
+  - (* an inner level *)
+    destruct Post as (Po & Ph & Pf). apply orb_false_elim in Ef. destruct Ef as [Ef1 Ef2]. subst force.
+    apply Nat.leb_gt in Ef2.
+    assert (Re : reent o = true) by (destruct (reent o); auto; specialize (D2 eq_refl); lia).
+    assert (Eo : objs s1 o = mkobj (o_proc (objs s o)) (o_reent (objs s o)) (o_dflt (objs s o)) (o_fd (objs s o)) (pred d1) (Some t) (pred d1)).
+    { rewrite Po. cbn [rel_loop]. rewrite (raises_own _ t) by (cbn; auto).
+      destruct (tl_release_cases (set_cnt (objs s o) (pred d1))) as [(R & D & ->)|(C & _)]; cbn in *.
+      - rewrite D3, D5. reflexivity.
+      - rewrite Co2, Re, D5 in C. destruct C; [discriminate|lia]. }
+    apply Hgen.
+    + intros hh Z. rewrite Hnx. apply Qk1. congruence.
+    + intros d q Z. rewrite Hnx. apply (Qk2 d q). congruence.
+    + rewrite Eo. cbn. auto.
+    + rewrite Eo. cbn. split; [lia|]. split; [intros Z; congruence|]. split; [exists fd; split; congruence|].
+      split; [auto|]. split; [auto|]. split; [auto|]. intros o' Hn. rewrite (r_obj _ _ _ _ F) by auto. apply D6; auto.
+Qed.
+
+(* ---------- sequences ------------------------------------------------------------------------------ *)
+
+Fixpoint run_calls (fuel : nat) (s : state) (ops : list (tid * call)) : list result * state :=
+  match ops with
+  | [] => ([], s)
+  | (t, c) :: rest =>
+      let '(s1, r) := do_call fuel s t c in
+      match r with
+      | RWouldBlock | ROutOfFuel => ([r], s1)
+      | _ => let '(rs, s2) := run_calls fuel s1 rest in (r :: rs, s2)
+      end
+  end.
+
+Fixpoint spec_calls (st : sstate) (ops : list (tid * call)) : list result * sstate :=
+  match ops with
+  | [] => ([], st)
+  | (t, c) :: rest =>
+      let '(st1, r) := spec_call reent dflt st t c in
+      match r with
+      | RWouldBlock => ([r], st)
+      | _ => let '(rs, st2) := spec_calls st1 rest in (r :: rs, st2)
+      end
+  end.
+
+(* the contract along the sequence: a thread releases only a lock it holds or an unheld one *)
+Fixpoint ok_calls (st : sstate) (ops : list (tid * call)) : bool :=
+  match ops with
+  | [] => true
+  | (t, c) :: rest =>
+      spec_ok_call st t c &&
+      let '(st1, r) := spec_call reent dflt st t c in
+      match r with RWouldBlock => true | _ => ok_calls st1 rest end
+  end.
+
+(* enough fuel, and a timed acquire has a positive poll interval *)
+Definition call_fuel_ok (fuel : nat) (c : call) : Prop :=
+  match c with
+  | CAcq o m blk tm poll _ =>
+      let tm' := snd (norm' (dflt o) blk tm) in
+      (forall T, tm' = TVal T -> (1 <= poll)%N) /\ acq_fuel tm' poll <= fuel
+  | CRel _ _ => True
+  end.
+
+Definition no_block (rs : list result) : bool :=
+  forallb (fun r => match r with RWouldBlock => false | _ => true end) rs.
+
+Lemma spec_acquire_depth st t o r : depth (fst (spec_acquire st t o r)) <= S (depth st).
+Proof.
+  unfold spec_acquire. destruct st as [[[o1 t1] d1]|]; cbn; [|lia]. destruct (_ && _); cbn; lia.
+Qed.
+
+Lemma spec_release_depth st o f : depth (spec_release st o f) <= depth st.
+Proof.
+  unfold spec_release. destruct st as [[[o1 t1] d1]|]; cbn; [|lia].
+  destruct (Nat.eqb o o1); cbn; [|lia]. destruct (f || (d1 <=? 1)); cbn; lia.
+Qed.
+
+Theorem refines_lemma fuel : forall ops s st,
+  Rq s st -> ok_calls st ops = true ->
+  (forall tc, In tc ops -> call_fuel_ok fuel (snd tc)) ->
+  depth st + length ops + 4 <= fuel ->
+  fst (run_calls fuel s ops) = fst (spec_calls st ops) /\
+  (no_block (fst (spec_calls st ops)) = true -> Rq (snd (run_calls fuel s ops)) (snd (spec_calls st ops))).
+Proof.
+  induction ops as [|[t c] rest IH]; intros s st Q Hok Hfu Hd; [cbn; auto|].
+  cbn [run_calls spec_calls ok_calls] in *. apply andb_prop in Hok. destruct Hok as [Hc Hok].
+  assert (Hfc : call_fuel_ok fuel c) by (apply (Hfu (t, c)); now left).
+  assert (Hfr : forall tc, In tc rest -> call_fuel_ok fuel (snd tc)) by (intros; apply Hfu; now right).
+  cbn [length] in Hd.
+  destruct c as [o m blk tm poll skip|o force].
+  - destruct Hfc as [Hp Hf].
+    destruct (acq_refines s st t o m blk tm poll skip fuel Q Hp Hf) as [Er Eq].
+    unfold spec_call in *. 
+    destruct (spec_acquire st t o (reent o)) as [st1 b] eqn:Esp. cbn [fst snd] in *.
+    destruct (do_call fuel s t (CAcq o m blk tm poll skip)) as [s1 r] eqn:Edo. cbn [fst snd] in *.
+    assert (Hd1 : depth st1 <= S (depth st)).
+    { pose proof (spec_acquire_depth st t o (reent o)) as Z. now rewrite Esp in Z. }
+    subst r. destruct b.
+    + assert (Q1 : Rq s1 st1) by (apply Eq; discriminate).
+      destruct (IH s1 st1 Q1 Hok Hfr) as [I1 I2]; [lia|].
+      destruct (run_calls fuel s1 rest) as [rs s2]. destruct (spec_calls st1 rest) as [rs' st2]. cbn in *.
+      split; [congruence|]. auto.
+    + unfold spec_no in *. destruct (waits_forever (dflt o) blk tm).
+      * cbn. split; auto. discriminate.
+      * assert (Q1 : Rq s1 st1) by (apply Eq; destruct m; discriminate).
+        assert (Hok' : ok_calls st1 rest = true) by (destruct m; exact Hok).
+        destruct (IH s1 st1 Q1 Hok' Hfr) as [I1 I2]; [lia|].
+        destruct (run_calls fuel s1 rest) as [rs s2]. destruct (spec_calls st1 rest) as [rs' st2].
+        destruct m; cbn in *; (split; [congruence|auto]).
+  - cbn in Hc. destruct (rel_refines s st t o force fuel Q Hc) as [Er Eq]; [lia|].
+    unfold spec_call in *.
+    destruct (do_call fuel s t (CRel o force)) as [s1 r] eqn:Edo. cbn [fst snd] in *. subst r.
+    pose proof (spec_release_depth st o force) as Hd1.
+    destruct (IH s1 (spec_release st o force) Eq Hok Hfr) as [I1 I2]; [lia|].
+    destruct (run_calls fuel s1 rest) as [rs s2]. destruct (spec_calls (spec_release st o force) rest) as [rs' st2]. cbn in *.
+    split; [congruence|auto].
+Qed.
+
+Lemma Rq_is_locked s st o : Rq s st -> is_locked s o = spec_is_locked st o.
+Proof.
+  intros [_ _ _ _ _ Qa]. unfold is_locked, spec_is_locked, held.
+  destruct st as [[[o1 t1] d1]|].
+  - destruct Qa as (_ & _ & (fd & F1 & _) & _ & _ & _ & D6).
+    destruct (Nat.eqb_spec o o1) as [->|Hn]; [now rewrite F1|]. destruct (D6 o Hn) as (-> & _). reflexivity.
+  - destruct Qa as [_ B]. destruct (B o) as (-> & _). reflexivity.
+Qed.
+
+End Refine.
+
+(* ---------- the initial state of the sequential runs (Case_C12.init_seq) ---------------------------- *)
+Require Aiuti.Case_C12.
+
+Lemma nth_fun_obj0 (cfg : list (bool * tmo)) o :
+  nth_fun (map (fun c => obj0 0 (fst c) (snd c)) cfg) (obj0 0 false TNeg) o
+  = obj0 0 (Case_C12.cfg_reent cfg o) (Case_C12.cfg_dflt cfg o).
+Proof.
+  unfold Case_C12.cfg_reent, Case_C12.cfg_dflt. revert o. induction cfg as [|x r IH]; intros [|o]; cbn; auto.
+Qed.
+
+Lemma nth_fun_thr0 (l : list nat) t : nth_fun (map (fun _ => thr0 0 []) l) (thr0 0 []) t = thr0 0 [].
+Proof. revert t. induction l as [|x r IH]; intros [|t]; cbn; auto. Qed.
+
+Lemma Rq_init nT cfg :
+  Rq (Case_C12.cfg_reent cfg) (Case_C12.cfg_dflt cfg) (Case_C12.init_seq nT cfg []) None.
+Proof.
+  unfold Case_C12.init_seq, init. constructor; cbn.
+  - intros t. rewrite nth_fun_thr0. auto.
+  - auto.
+  - auto.
+  - intros o. rewrite nth_fun_obj0. auto.
+  - split; intros; discriminate.
+  - split; auto. intros o. rewrite nth_fun_obj0. repeat split.
+Qed.
+
+(* ---------- the theorems of props/C12.v ---------------------------------------------------------------- *)
+
+Theorem refines_rlock_spec_lemma :
+  forall nT cfg ops fuel,
+    let reent := Case_C12.cfg_reent cfg in
+    let dflt := Case_C12.cfg_dflt cfg in
+    ok_calls reent dflt None ops = true ->
+    (forall tc, In tc ops -> call_fuel_ok dflt fuel (snd tc)) ->
+    length ops + 4 <= fuel ->
+    let conc := run_calls fuel (Case_C12.init_seq nT cfg []) ops in
+    let spec := spec_calls reent dflt None ops in
+    fst conc = fst spec /\
+    (no_block (fst spec) = true ->
+       Rq reent dflt (snd conc) (snd spec) /\
+       forall o, is_locked (snd conc) o = spec_is_locked (snd spec) o).
+Proof.
+  intros nT cfg ops fuel reent dflt Hok Hfu Hd conc spec.
+  destruct (refines_lemma reent dflt fuel ops _ None (Rq_init nT cfg) Hok Hfu) as [A B]; [cbn; lia|].
+  split; auto. intros Nb. specialize (B Nb). split; auto. intros o. eapply Rq_is_locked; eauto.
+Qed.
+
+(* consequences for a single call in any state between two calls of such a sequence *)
+
+Theorem acquire_true_iff_holds_lemma :
+  forall reent dflt s st t o m blk tm poll skip fuel,
+    Rq reent dflt s st -> call_fuel_ok dflt fuel (CAcq o m blk tm poll skip) ->
+    let res := do_call fuel s t (CAcq o m blk tm poll skip) in
+    let st' := fst (spec_acquire st t o (reent o)) in
+    (snd res = RTrue <-> snd (spec_acquire st t o (reent o)) = true) /\
+    (snd res = RTrue -> Rq reent dflt (fst res) st' /\ exists d, held st' o = Some (t, d) /\ is_locked (fst res) o = true) /\
+    (snd res = RFalse \/ snd res = RTimeout -> Rq reent dflt (fst res) st /\ st' = st).
+Proof.
+  intros reent dflt s st t o m blk tm poll skip fuel Q [Hp Hf] res st'.
+  destruct (acq_refines reent dflt s st t o m blk tm poll skip fuel Q Hp Hf) as [Er Eq]. fold res in Er, Eq.
+  assert (Hno : spec_no (dflt o) m blk tm <> RTrue) by (unfold spec_no; destruct (waits_forever _ _ _), m; discriminate).
+  split; [|split].
+  - rewrite Er. destruct (snd (spec_acquire st t o (reent o))); split; auto; try congruence; try discriminate.
+  - intros E. assert (Q' : Rq reent dflt (fst res) st') by (apply Eq; rewrite E; discriminate). split; auto.
+    rewrite E in Er. unfold st' in *. unfold spec_acquire in *.
+    destruct st as [[[o1 t1] d1]|]; cbn in *.
+    + destruct (Nat.eqb o o1 && Nat.eqb t t1 && reent o) eqn:Eb; cbn in *; [|congruence].
+      exists (S d1). rewrite Nat.eqb_refl. split; auto. rewrite (Rq_is_locked _ _ _ _ o Q'). unfold spec_is_locked, held. now rewrite Nat.eqb_refl.
+    + exists 1. rewrite Nat.eqb_refl. split; auto. rewrite (Rq_is_locked _ _ _ _ o Q'). unfold spec_is_locked, held. now rewrite Nat.eqb_refl.
+  - intros E. assert (Eb : snd (spec_acquire st t o (reent o)) = false).
+    { destruct (snd (spec_acquire st t o (reent o))); auto. rewrite Er in E. destruct E; discriminate. }
+    assert (Est : st' = st).
+    { unfold st', spec_acquire in *. destruct st as [[[o1 t1] d1]|]; cbn in *; [|discriminate]. destruct (_ && _); cbn in *; [discriminate|auto]. }
+    split; auto. rewrite <- Est. apply Eq. destruct E as [-> | ->]; discriminate.
+Qed.
+
+Theorem reacquire_after_release_lemma :
+  forall reent dflt s o t d force fuel t2 o2 m blk tm poll skip,
+    Rq reent dflt s (Some (o, t, d)) -> (force = true \/ d = 1) ->
+    d + 4 <= fuel -> call_fuel_ok dflt fuel (CAcq o2 m blk tm poll skip) ->
+    let s1 := fst (do_call fuel s t (CRel o force)) in
+    Rq reent dflt s1 None /\ (forall o', is_locked s1 o' = false) /\
+    snd (do_call fuel s1 t2 (CAcq o2 m blk tm poll skip)) = RTrue.
+Proof.
+  intros reent dflt s o t d force fuel t2 o2 m blk tm poll skip Q Hf Hd [Hp Hfu] s1.
+  destruct (rel_refines reent dflt s (Some (o, t, d)) t o force fuel Q) as [_ Q1]; [|cbn; lia|].
+  { unfold spec_may_release, held. now rewrite !Nat.eqb_refl. }
+  fold s1 in Q1. cbn in Q1. rewrite Nat.eqb_refl in Q1.
+  assert (E : force || (d <=? 1) = true) by (destruct Hf as [-> | ->]; [reflexivity|apply orb_true_r]).
+  rewrite E in Q1. split; auto. split.
+  - intros o'. rewrite (Rq_is_locked _ _ _ _ o' Q1). reflexivity.
+  - destruct (acq_refines reent dflt s1 None t2 o2 m blk tm poll skip fuel Q1 Hp Hfu) as [Er _]. exact Er.
+Qed.
+
+Theorem nonreentrant_refuses_lemma :
+  forall reent dflt s o t d t2 m blk tm poll skip fuel,
+    Rq reent dflt s (Some (o, t, d)) -> reent o = false ->
+    call_fuel_ok dflt fuel (CAcq o m blk tm poll skip) ->
+    let res := do_call fuel s t2 (CAcq o m blk tm poll skip) in
+    snd res = spec_no (dflt o) m blk tm /\ snd res <> RTrue /\
+    (snd res <> RWouldBlock -> Rq reent dflt (fst res) (Some (o, t, d))).
+Proof.
+  intros reent dflt s o t d t2 m blk tm poll skip fuel Q Hr [Hp Hfu] res.
+  destruct (acq_refines reent dflt s (Some (o, t, d)) t2 o m blk tm poll skip fuel Q Hp Hfu) as [Er Eq].
+  fold res in Er, Eq. cbn in Er, Eq. rewrite Hr, andb_false_r in Er, Eq. cbn in Er, Eq.
+  split; auto. split; auto. rewrite Er. unfold spec_no. destruct (waits_forever _ _ _), m; discriminate.
+Qed.
+
+Theorem only_outermost_release_frees_lemma :
+  forall reent dflt s o t d fuel,
+    Rq reent dflt s (Some (o, t, d)) -> 2 <= d -> d + 4 <= fuel ->
+    let s1 := fst (do_call fuel s t (CRel o false)) in
+    Rq reent dflt s1 (Some (o, t, pred d)) /\ is_locked s1 o = true.
+Proof.
+  intros reent dflt s o t d fuel Q Hd Hfu s1.
+  destruct (rel_refines reent dflt s (Some (o, t, d)) t o false fuel Q) as [_ Q1]; [|cbn; lia|].
+  { unfold spec_may_release, held. now rewrite !Nat.eqb_refl. }
+  fold s1 in Q1. cbn in Q1. rewrite Nat.eqb_refl in Q1.
+  assert (E : (d <=? 1) = false) by (apply Nat.leb_gt; lia). rewrite E in Q1. split; auto.
+  rewrite (Rq_is_locked _ _ _ _ o Q1). unfold spec_is_locked, held. now rewrite Nat.eqb_refl.
 Qed.
